@@ -69,7 +69,7 @@ def conc_scalar(env, t, tok):
         table = {"0": 0, "1": 1, "max": hi, "min": lo, "min-1": lo - 1, "max+1": hi + 1}
         return table[tok] if tok in table else common[tok]
     if b["k"] == "flt":
-        table = {"0.0": 0.0, "1.5": 1.5, "1": 1}
+        table = {"0.0": 0.0, "1.5": 1.5, "1": 1, "fbig": 1e39}
         return table[tok] if tok in table else common[tok]
     d = env.d(b["i"])
     if d["k"] == "enum":
